@@ -289,7 +289,9 @@ def shrink(design, sig, drv, tmp, opts, budget=40):
     changed = True
     while changed and budget > 0:
         changed = False
-        for field in ("stmts", "bbs", "hdr"):
+        # header lines are kept: dropping one of two lines that share a bus would leave a sparse
+        # bus port, which is outside the domain
+        for field in ("stmts", "bbs"):
             i = 0
             while i < len(cur[field]) and budget > 0:
                 d = copy.deepcopy(cur)
